@@ -255,6 +255,12 @@ func (m *Muxer) makeReliableTubeWithID(tType TubeType, tubeID byte, req bool) (*
 		m.log.WithField("tube", tubeID).Debug("tried to make tube while muxer is stopping")
 		return nil, ErrMuxerStopping
 	}
+	if !req && len(m.tubeQueue) == cap(m.tubeQueue) {
+		// Nobody is accepting. Blocking here would wedge the receiver (and
+		// Stop) behind m.m; the peer retransmits its request.
+		m.log.WithField("tube", tubeID).Warn("accept queue full, ignoring tube request")
+		return nil, ErrAcceptQueueFull
+	}
 	tubeLog := m.log.WithFields(logrus.Fields{
 		"tube":     tubeID,
 		"reliable": true,
@@ -315,6 +321,10 @@ func (m *Muxer) makeUnreliableTubeWithID(tType TubeType, tubeID byte, req bool) 
 	if state != muxerRunning {
 		m.log.WithField("tube", tubeID).Debug("tried to make tube while muxer is stopping")
 		return nil, ErrMuxerStopping
+	}
+	if !req && len(m.tubeQueue) == cap(m.tubeQueue) {
+		m.log.WithField("tube", tubeID).Warn("accept queue full, ignoring tube request")
+		return nil, ErrAcceptQueueFull
 	}
 	tube := &Unreliable{
 		tType:        tType,
